@@ -1,4 +1,41 @@
-#![allow(dead_code, unused_imports, clippy::all)]
+#![allow(dead_code, unused_imports, unused_macros, clippy::all)]
+//! Solver harnesses for reed-solomon-simd. Compiles two ways:
+//!  * `cargo kani`: every `h!`/`cfg_attr(kani, kani::proof)` function is a proof harness;
+//!  * natively (bin `replay`): the same functions re-run on a recorded witness.
+
+/// `h!(name, unwind, body)` declares one proof harness.
+#[macro_export]
+macro_rules! h {
+    ($name:ident, $unw:expr, $body:expr) => {
+        #[cfg_attr(kani, kani::proof)]
+        #[cfg_attr(kani, kani::unwind($unw))]
+        pub fn $name() {
+            $body
+        }
+    };
+}
+
+/// like `h!` but with `[T]::fill` replaced by the ghost-range model (stubs.rs);
+/// needed wherever the low-rate decoder's `erasures[..].fill(1)` is executed.
+#[macro_export]
+macro_rules! hf {
+    ($name:ident, $unw:expr, $body:expr) => {
+        #[cfg_attr(kani, kani::proof)]
+        #[cfg_attr(kani, kani::unwind($unw))]
+        #[cfg_attr(kani, kani::stub(core::slice::specialize::SpecFill::spec_fill, crate::stubs::stub_spec_fill))]
+        pub fn $name() {
+            $body
+        }
+    };
+}
+
+pub mod k;
+pub mod codec;
+pub mod gen;
 pub mod model;
-#[cfg(kani)]
-mod c08;
+pub mod stubs;
+pub mod c01;
+pub mod c02;
+pub mod c06;
+pub mod c08;
+pub mod c99;
